@@ -186,7 +186,7 @@ class LogicConv2d(_PersistentWiring, nn.Module):
         if not self.training:
             # eval mode: the most probable gate, independent of the sampling mode
             return torch.stack(
-                [torch.nn.functional.one_hot(w.argmax(-1), 16).to(torch.float32)
+                [torch.nn.functional.one_hot(w.argmax(-1), 16).to(w.dtype)
                  for w in self.tree_weights[level]], dim=0
             )
         if self.forward_sampling in ("gumbel_soft", "gumbel_hard") and not self.temperature > 0:
@@ -513,7 +513,7 @@ class LogicConv3d(_PersistentWiring, nn.Module):
         if not self.training:
             # eval mode: the most probable gate is the one with the largest logit
             return torch.stack(
-                [torch.nn.functional.one_hot(w.argmax(-1), 16).to(torch.float32)
+                [torch.nn.functional.one_hot(w.argmax(-1), 16).to(w.dtype)
                  for w in self.tree_weights[level]], dim=0
             )
         return torch.stack(
